@@ -130,7 +130,7 @@ TxStop == lk = "tdata" /\ \E i \in Inputs :
           /\ PktEnv /\ UNCHANGED <<lat, shadow>>
 
 MCInit == /\ RegInit /\ lk = "idle" /\ lat = [a |-> FunctionControlAddr, d |-> FunctionControlReset]
-          /\ shadow = [a \in Regs |-> IF a = FunctionControlAddr THEN FunctionControlReset ELSE OtgControlReset]
+          /\ shadow = [a \in Regs |-> ResetVal(a)]
           /\ trem = 0 /\ changes = 0 /\ stall = 0 /\ dirUps = 0 /\ dirRun = 0 /\ pkts = 0
 
 Next == Idle \/ StartWrite \/ StartTx \/ WriteCmd \/ WriteData \/ WriteStp \/ TxCmd \/ TxData \/ TxStop
